@@ -45,7 +45,7 @@ func (this *C40Encoder) encode(context *EncoderContext) error {
 			if (len(buffer)%3) == 2 && available != 2 {
 				lastCharSize, buffer, removed = this.backtrackOneCharacter(context, buffer, removed, lastCharSize)
 			}
-			for (len(buffer)%3) == 1 && (lastCharSize > 3 || available != 1) {
+			for (len(buffer)%3) == 1 && (len(removed) > 0 || lastCharSize > 1 || available != 1) {
 				lastCharSize, buffer, removed = this.backtrackOneCharacter(context, buffer, removed, lastCharSize)
 			}
 			break
